@@ -1,10 +1,109 @@
 package main
 
-// Labels for defects first found by this tool (N01..). Each entry: lexical shape + counterfactual.
+// Labels for defects first found by this tool (N01..). Each entry: lexical shape, and where the
+// signature alone is not specific, a counterfactual run.
 
 import (
+	"regexp"
+	"strings"
+
+	xhtml "golang.org/x/net/html"
 	"verifharness/internal/vh"
 )
 
+// n01Shape: a reference decoding to "&" directly followed by a reference decoding to an alphanumeric or "#".
+// Returns the input with a space inserted between the two (the counterfactual).
+func n01Shape(src string) (string, bool) {
+	us := units(src)
+	var sb strings.Builder
+	found := false
+	for i, u := range us {
+		sb.WriteString(u)
+		if i+1 < len(us) && len(u) > 1 && u[0] == '&' && xhtml.UnescapeString(u) == "&" {
+			nx := us[i+1]
+			if len(nx) > 1 && nx[0] == '&' {
+				d := xhtml.UnescapeString(nx)
+				if d != nx && len(d) > 0 && (isAlnum(d[0]) || d[0] == '#') {
+					sb.WriteString("-")
+					found = true
+				}
+			}
+		}
+	}
+	return sb.String(), found
+}
+
+var n02Re = regexp.MustCompile("(?i)<(/(?:script|style|textarea|title|iframe|xmp))([^a-zA-Z \t\n\f\r/>])")
+var n04Re = regexp.MustCompile("(?is)\\s(?:on[a-z]+|style)\\s*=\\s*(?:\"[^\"]*|'[^']*|[^\\s>]*)(?:&amp;|&AMP;|&#0*38;|&#[xX]0*26;)[A-Za-z0-9#]")
+var ampBoilerRe = regexp.MustCompile("(?i)amp-boilerplate(?:\\s*=\\s*(?:\"[^\"]*\"|'[^']*'|[^\\s>]*))?")
+var bodyHeadRe = regexp.MustCompile("(?is)<body\\s*>(?:\\s|<!--.*?-->)*<(?:script|style|link|meta|template|noscript|base|title|bgsound|basefont|noframes)\\b")
+
 func labelNew(c *Case, v *vh.Violation, gone func(*Case) bool) {
+	sig := v.Signature
+	has := func(p string) bool { return strings.HasPrefix(sig, p) }
+	variant := func(mod func(*Case)) *Case {
+		t := *c
+		t.Skeleton = ""
+		mod(&t)
+		return &t
+	}
+	valueish := has("text-changed") || has("attr-value-changed") || has("verbatim") || has("words-") || has("stub-") || has("structure:") || has("passthrough-changed")
+	if fixed, ok := n01Shape(c.Input); ok && valueish {
+		if gone(variant(func(t *Case) { t.Input = fixed })) {
+			v.Signature = "N01:amp-reference-joined-with-following-reference:" + sig
+			return
+		}
+	}
+	if n02Re.MatchString(c.Input) {
+		if gone(variant(func(t *Case) { t.Input = n02Re.ReplaceAllString(c.Input, "<\\${1}${2}") })) {
+			v.Signature = "N02:rawtext-end-tag-without-tag-end-character:" + sig
+			return
+		}
+	}
+	if strings.Contains(sig, ":type-not-lowercase") {
+		v.Signature = "N03:script-style-type-case:" + sig
+		return
+	}
+	if has("stub-payload-changed:event-attr:ampersand") || has("stub-payload-changed:style-attr:ampersand") {
+		v.Signature = "N04:attr-payload-not-fully-decoded:" + sig
+		return
+	}
+	if c.Registry == "real" && n04Re.MatchString(c.Input) && (has("error:first-pass") || has("second-pass-error") || has("attr-")) {
+		if gone(variant(func(t *Case) { t.Registry = "none" })) {
+			v.Signature = "N04:attr-payload-not-fully-decoded:" + sig
+			return
+		}
+	}
+	if c.Opts.TemplateDelims && strings.Contains(c.Input, "{{") && (has("verbatim-content-changed:") || has("passthrough-changed:") || has("stub-not-called:") || has("structure:")) {
+		if gone(variant(func(t *Case) { t.Opts.TemplateDelims = false })) {
+			v.Signature = "N05:rawtext-with-template-action-treated-as-text:" + sig
+			return
+		}
+	}
+	if has("words-joined:box-embed~") || has("words-joined:box-audio~") || has("keep-whitespace:words-joined:box-embed~") || has("keep-whitespace:words-joined:box-audio~") {
+		v.Signature = "N06:space-after-embed-or-audio-dropped:" + sig
+		return
+	}
+	if (has("words-joined:") || has("keep-whitespace:words-joined:")) && (strings.HasSuffix(sig, ":template") || strings.HasSuffix(sig, ":datalist")) {
+		v.Signature = "N07:space-after-invisible-element-dropped:" + sig
+		return
+	}
+	if has("keep-quotes:quotes-removed:event") && c.Registry == "real" {
+		if gone(variant(func(t *Case) { t.Registry = "none" })) {
+			v.Signature = "N08:keepquotes-lost-after-js-minifier:" + sig
+			return
+		}
+	}
+	if ampBoilerRe.MatchString(c.Input) && (has("verbatim-content-changed:style") || has("passthrough-changed:style") || has("structure:")) {
+		if gone(variant(func(t *Case) { t.Input = ampBoilerRe.ReplaceAllString(c.Input, "data-x") })) {
+			v.Signature = "N09:amp-boilerplate-style-treated-as-text:" + sig
+			return
+		}
+	}
+	if !c.Opts.KeepDocumentTags && bodyHeadRe.MatchString(c.Input) && has("structure:") {
+		if gone(variant(func(t *Case) { t.Opts.KeepDocumentTags = true })) {
+			v.Signature = "N10:body-start-tag-dropped-before-head-content:" + sig
+			return
+		}
+	}
 }
